@@ -291,6 +291,39 @@ Proof.
   intros t. do 3 (destruct t as [|t]; [vm_compute; reflexivity|]). reflexivity.
 Qed.
 
+(* ------------------------------------------------------------------ 4c. marks during a send *)
+Lemma sk_bound : forall b t s, 2 <= t -> sk_step b t s = None.
+Proof. intros b t s H. unfold sk_step. do 2 (destruct t as [|t]; [lia|]). reflexivity. Qed.
+Definition sk_reach : list sk_st := explore sk_st sk_st_beq (sk_step false) 2 5000 [sk_init] [].
+Lemma sk_closed : closed sk_st sk_st_beq (sk_step false) 2 sk_reach = true.
+Proof. vm_compute. reflexivity. Qed.
+Lemma sk_init_in : In sk_init sk_reach.
+Proof. apply (mem_in _ _ internal_sk_st_dec_bl). vm_compute. reflexivity. Qed.
+Lemma sk_all_ok : forallb sk_ok sk_reach = true.
+Proof. vm_compute. reflexivity. Qed.
+
+(* whenever the application's write and mark fall relative to the update in flight: once both are done and
+   the client has asked again, the client shows the new pixel *)
+Theorem send_keeps_concurrent_marks : forall sched,
+  let s := run sk_st (sk_step false) sched sk_init in
+  sk_pcA s = 2 -> sk_pcO s = 5 -> sk_client s = true.
+Proof.
+  intros sched s HA HO.
+  assert (H := all_schedules sk_st sk_st_beq internal_sk_st_dec_bl (sk_step false) 2 (sk_bound false)
+                 sk_reach sk_ok sk_init sk_closed sk_init_in sk_all_ok sched).
+  fold s in H. unfold sk_ok in H. rewrite HA, HO in H. simpl in H. exact H.
+Qed.
+
+Lemma send_keeps_nonvacuous :
+  let s := run sk_st (sk_step false) [1; 1; 0; 0; 1; 1; 1] sk_init in sk_pcA s = 2 /\ sk_pcO s = 5 /\ sk_client s = true.
+Proof. vm_compute. repeat split. Qed.
+
+(* subtracting the sent box from modifiedRegion again after the send loses a mark placed in between *)
+Theorem subtract_after_send_loses_mark :
+  let s := run sk_st (sk_step true) [1; 1; 0; 0; 1; 1; 1] sk_init in
+  sk_pcA s = 2 /\ sk_pcO s = 5 /\ sk_client s = false.
+Proof. vm_compute. repeat split. Qed.
+
 (* ------------------------------------------------------------------ 5. lock order *)
 Section LockOrder.
   Variable rank : nat -> nat.
